@@ -166,7 +166,9 @@ impl TypeGraph {
             } else {
                 s.push_str(&format!("pub struct {} {{\n    pub id: i32,\n", n.name));
                 for (k, e) in self.edges.iter().filter(|e| e.from == i).enumerate() {
-                    s.push_str(&format!("    pub f{}: {},\n", k, self.field_ty(e).rust(true)));
+                    // serde serialises private fields too: an edge through one is an edge
+                    let vis = ["pub ", "", "pub ", "pub(crate) "][(i + k + e.to) % 4];
+                    s.push_str(&format!("    {}f{}: {},\n", vis, k, self.field_ty(e).rust(true)));
                 }
                 s.push_str("}\n\n");
             }
